@@ -286,6 +286,8 @@ def run_C13(ctx):
     plan.append(("rel", "P7t", "S0", 5 if q else 6, ["--observe", "monitor"] + ([] if q else ["--prune"]), {"MIMALLOC_ABANDONED_RECLAIM_ON_FREE": "1", "MIMALLOC_DISALLOW_ARENA_ALLOC": "1"}))
     plan.append(("rel", "P7t", "S0", 4 if q else 5, ["--observe", "monitor"], {"MIMALLOC_ABANDONED_RECLAIM_ON_FREE": "1", "MIMALLOC_PURGE_DELAY": "0"}))
     plan.append(("rel", "P8f", "S10", 3 if q else 4, ["--observe", "monitor"], {}))
+    # lazy commit of a caller-provided arena registered through the six-argument mi_manage_os_memory (uncommitted: committed before use; committed + immediate purge)
+    plan.append(("rel", "P6a", "Sm0", 4, [], {})); plan.append(("rel", "P6a", "Sm1", 4, [], {"MIMALLOC_PURGE_DELAY": "0"}))
     plan.append(("rel", "P8g", "S11", 3 if q else 4, ["--observe", "monitor"], LAZY)); plan.append(("sec", "P8g", "S11", 3, ["--observe", "monitor"], {"MIMALLOC_EAGER_COMMIT": "0"}))
     if not q:
         for k, env in enumerate(all_configs(OPTS13[:9])):     # full product of the 9 allocator options (576) at small depth
@@ -354,7 +356,7 @@ def run_C07(ctx):
     if not q:
         plan += [("rel", "fault", fl, envs(SMALL, P0, {"MIMALLOC_PURGE_DECOMMITS": "0"})), ("sec", "fault", [], NOA), ("dbg", "fault", [], NOA), ("rel", "fault", [], envs(LAZY, SMALL))]
     return os_property(ctx, plan, level="fault_enumeration",
-        rule="(two configurations let the modelled OS ignore address hints: hinted mappings come back misaligned and are replaced by trimmed over-allocations) for each of 10 workloads (small/medium churn, large, huge, over-aligned huge, threads with exit+reclaim, heaps new/delete/destroy, realloc chains, mixed, 32 arena reservations of 32 MiB followed by blocks of three kinds, a reservation of three 1 GiB huge OS pages -- granted by the modelled OS for the duration of that call only, each refusable -- followed by 40 blocks of 30 MiB; in jobs of its own) the fault-free run counts its N OS calls (mmap/munmap/mprotect/madvise through the shim); then every k < N is run with (a) a single refusal at call k and (b) persistent refusal from call k of mmap / mprotect / madvise / munmap / all kinds (thorough: also every pair k1<k2 of single refusals), under several option settings (default, lazy commit + immediate purge, arenas disabled, small arena) and builds. Oracle per case: no crash; every API result is NULL or a block that passes the full write/read/overlap oracle; live blocks keep their contents; only out-of-memory errors are reported; after the plan is lifted a recovery script allocates and frees blocks of all classes and after a forced collect nothing obtained directly from the OS remains mapped (minus ranges whose munmap the plan itself refused). distinct_nontrivial = cases in which at least one OS call was actually refused.",
+        rule="(two configurations let the modelled OS ignore address hints: hinted mappings come back misaligned and are replaced by trimmed over-allocations) for each of 11 workloads (small/medium churn, large, huge, over-aligned huge, threads with exit+reclaim, heaps new/delete/destroy, realloc chains, mixed, 32 arena reservations of 32 MiB followed by blocks of three kinds, a reservation of three 1 GiB huge OS pages -- granted by the modelled OS for the duration of that call only, each refusable -- followed by 40 blocks of 30 MiB; in jobs of its own, string duplication -- mi_strdup / mi_strndup / mi_heap_strdup / mi_heap_strndup of 17 MiB, 3 MiB, 100 KiB and 48-byte strings, which must answer a refusal with NULL) the fault-free run counts its N OS calls (mmap/munmap/mprotect/madvise through the shim); then every k < N is run with (a) a single refusal at call k and (b) persistent refusal from call k of mmap / mprotect / madvise / munmap / all kinds (thorough: also every pair k1<k2 of single refusals), under several option settings (default, lazy commit + immediate purge, arenas disabled, small arena) and builds. Oracle per case: no crash; every API result is NULL or a block that passes the full write/read/overlap oracle; live blocks keep their contents; only out-of-memory errors are reported; after the plan is lifted a recovery script allocates and frees blocks of all classes and after a forced collect nothing obtained directly from the OS remains mapped (minus ranges whose munmap the plan itself refused). distinct_nontrivial = cases in which at least one OS call was actually refused.",
         assumptions=COMMON_ASSUME + ["refusals are ENOMEM (mmap: MAP_FAILED) / EINVAL (munmap); madvise never answers EAGAIN (mimalloc retries EAGAIN forever by design)",
                                      "debug builds: madvise refusals are excluded (a failing decommit is an intended debug assertion)"])
 
@@ -609,7 +611,9 @@ def run_C15(ctx):
     shapes = shapes_q if q else list(range(64))
     plan = [("rel", "P6a", f"Sa{k}", 5 if (q and k in (2, 3)) else (4 if q else 5), pr, {}) for k in shapes]
     plan += [("dbg", "P6a", "Sa2", 4 if q else 5, pr, {}), ("sec", "P6a", "Sa23", 4 if q else 5, pr, {}), ("rel", "P6a", "Sa3", 4, [], {"MIMALLOC_ABANDONED_RECLAIM_ON_FREE": "1"}),
-             ("rel", "P6a", "Sa18", 4, [], {"MIMALLOC_PURGE_DELAY": "0"})]
+             ("rel", "P6a", "Sa18", 4, [], {"MIMALLOC_PURGE_DELAY": "0"}),
+             # the six-argument registration form (its flags reach the arena in the right roles: an uncommitted range is committed before use, a committed one is purged)
+             ("rel", "P6a", "Sm0", 4, pr, {}), ("rel", "P6a", "Sm1", 4, pr, {}), ("dbg", "P6a", "Sm0", 3, [], {})]
     # the same shapes registered for NUMA node 1 (the process runs on node 0: the arena is only reachable through the second, foreign-node arm of the arena search)
     plan += [("rel", "P6a", f"Sn{k}", 4 if q else 5, pr, {}) for k in ((2, 3) if q else (0, 1, 2, 3, 22, 23, 59, 41))]
     # the arena-bound heap as the thread's default heap while frees adopt abandoned segments (reclaim-on-free); no arena reservation, so that default-heap memory comes straight from the OS
